@@ -477,7 +477,7 @@ pub fn table() -> Vec<Case> {
     for u in 0..7u8 {
         for sp in 0..2u8 {
             for n in [0u32, 1, 2, 30, 365] {
-                out.push(Case { shape: Shape::Durations(crate::c10::Case { lang: "tr".into(), groups: vec![vec![crate::c10::Part { count: n, unit: u, spelling: sp, group: false }]], plus: vec![], conv: None, via_var: false }), wcase: 0 });
+                out.push(Case { shape: Shape::Durations(crate::c10::Case { lang: "tr".into(), groups: vec![vec![crate::c10::Part { count: n, unit: u, spelling: sp, group: false }]], plus: vec![], conv: None, via_var: false, num: None }), wcase: 0 });
             }
         }
     }
